@@ -277,4 +277,28 @@ theorem parse_toCompactDeep (d : DNA) (h : viewNorm d = true) : parse (toCompact
 /-- The two compact forms agree unless an empty DNA is a child. -/
 theorem toCompactDeep_root (v : Val) : toCompactDeep (.mk v []) = toCompact (.mk v []) := rfl
 
+/-! ### the verbose JSON form -/
+
+theorem mk'_of_viewNorm (v : Val) (cs : List DNA) (h : viewNorm (.mk v cs) = true) : mk' v cs = .mk v cs := by
+  simp only [viewNorm, Bool.and_eq_true] at h
+  obtain ⟨⟨h1, _⟩, _⟩ := h
+  match cs, h1 with
+  | [], _ => cases v <;> rfl
+  | [.mk w gs], h1 =>
+    cases w with
+    | none => cases v <;> simp at h1
+    | int i => cases v <;> first | (simp at h1; done) | rfl
+    | flt a b => cases v <;> first | (simp at h1; done) | rfl
+    | str t => cases v <;> first | (simp at h1; done) | rfl
+  | (.mk w1 g1) :: c2 :: rest, _ => cases w1 <;> cases v <;> rfl
+
+/-- `from_json(d.to_json(compact=False)) == d`. -/
+theorem parseVerbose_toVerbose (d : DNA) (h : viewNorm d = true) : parseVerbose (toVerbose d) = some d := by
+  cases d with
+  | mk v cs =>
+    have hl : viewNormList cs = true := by
+      simp only [viewNorm, Bool.and_eq_true] at h; exact h.2
+    simp only [toVerbose, parseVerbose, parseList_toCompactDeepList cs hl, Option.map_some]
+    rw [mk'_of_viewNorm v cs h]
+
 end Pg.Geno
